@@ -259,11 +259,12 @@ func valueFromCall(v ssa.Value, fn *ssa.Function, d int) bool {
 // allFlag decides the "all elements satisfied" idiom: return instruction R is
 // reached only if, in every loop iteration, the per-element call S satisfied
 // okEdge.  Conditions:
-//  (i)   R is guarded by the truth of a boolean flag G (a phi web);
-//  (ii)  the only constants entering the phi web are true/false, and `true`
-//        enters only on edges from blocks that S cannot reach (initialisation);
-//  (iii) every path from S to the next execution of S or to R crosses okEdge
-//        or a phi edge that sets the flag to false.
+//
+//	(i)   R is guarded by the truth of a boolean flag G (a phi web);
+//	(ii)  the only constants entering the phi web are true/false, and `true`
+//	      enters only on edges from blocks that S cannot reach (initialisation);
+//	(iii) every path from S to the next execution of S or to R crosses okEdge
+//	      or a phi edge that sets the flag to false.
 func allFlag(fn *ssa.Function, R ssa.Instruction, S ssa.Instruction, okEdge func(an.Rel) bool) (bool, string) {
 	return allFlagOpt(fn, R, S, okEdge, false)
 }
